@@ -365,7 +365,7 @@ def check_history(case):
                 data.validate_spect_data_set(ds, fix)
                 raised = None
             except Exception as e:  # the property says "raises"; the documented type is ValueError, any exception counts as a rejection
-                raised = "%s(%r)" % (type(e).__name__, str(e)[-160:])
+                raised = "%s(%r)" % (type(e).__name__, str(e).replace(root, "<dir>")[-160:])
             if raised is not None and not want_raise:
                 return "%s raised %s but %s" % (what, raised, "the directory meets every documented condition" if fix is None else "every defect present is a documented repairable one")
             if raised is None and want_raise:
@@ -796,7 +796,7 @@ def check_info(case):
             rc = command_line.get_torch_spect_data_dir_info([root, out_path] + flags)
             raised = None
         except Exception as e:  # any exception counts as a rejection (documented: ValueError)
-            raised = "%s(%r)" % (type(e).__name__, str(e)[-160:])
+            raised = "%s(%r)" % (type(e).__name__, str(e).replace(root, "<dir>")[-160:])
         if raised is not None and not want_raise:
             return "%s raised %s on a directory it should accept" % (what, raised)
         if raised is None and want_raise:
@@ -1124,20 +1124,25 @@ KNOWN_MATCH = {}
 
 
 def _finding(fid, clause, what, cls, witness, pred):
-    FINDINGS.append({"id": fid, "property": "C12", "clause": clause, "what": what, "class": cls, "witness": witness})
+    """clause: one clause name, or a list (the framework's multi-clause form: 'clauses' + 'witness_clause')"""
+    rec = {"id": fid, "property": "C12", "clause": clause if isinstance(clause, str) else clause[0], "what": what, "class": cls, "witness": witness}
+    if not isinstance(clause, str):
+        rec["clauses"], rec["witness_clause"] = list(clause), clause[0]
+    FINDINGS.append(rec)
     KNOWN_MATCH[fid] = pred
 
 
-for _cl, _sfx, _h in (("C12.val.iff", "a", [None]), ("C12.fix.sticks", "b", [0, None, 0])):
-    _finding("KF-C12-1" + _sfx, _cl,
+_BOTH, _h = ["C12.val.iff", "C12.fix.sticks"], [None]  # history of the witnesses: one strict pass
+if True:
+    _finding("KF-C12-1", _BOTH,
              "validate_spect_data_set unpacks get_utterance_tuple() into exactly (feat, ali, ref): a data set built with suppress_alis=True (2-tuple) or suppress_uttids=False (4-tuple) makes every validation raise ValueError('... values to unpack'), also on a well-formed directory",
              "data set has suppress_alis=True or suppress_uttids=False (any directory with >= 1 utterance)",
              {"tags": ["feat:ok"], "utts": [utt("u0", _OK, None, None)], "cfg": {"suppress_alis": True}, "history": _h}, _k_unpack)
-    _finding("KF-C12-3" + _sfx, _cl,
+    _finding("KF-C12-3", _BOTH,
              "validation sees references through the data set's tokens_only view: with tokens_only=True every stored 2-D reference is validated as its token column, so boundary / width / mixed-dimensionality defects are accepted, and a fixing pass that upcasts writes the reference back as a 1-D token list (boundaries lost)",
              "data set has tokens_only=True and some stored reference is 2-D",
              {"tags": ["ref:2d-start>end"], "utts": [utt("u0", _OK, None, ref2([[1, 2, 1]]))], "cfg": {"tokens_only": True}, "history": _h}, _k_tokens_only)
-    _finding("KF-C12-5" + _sfx, _cl,
+    _finding("KF-C12-5", _BOTH,
              "validation loads references through _load_ref with the data set's sos/eos: a stored empty (0, 3) reference raises IndexError instead of being accepted (same root as KF-C12-4)",
              "data set has sos or eos configured and some stored reference has shape (0, 3)",
              {"tags": ["ref:2d-empty"], "utts": [utt("u0", _OK, None, sp("int64", [0, 3]))], "cfg": {"eos": EOS}, "history": _h}, _k_soseos_empty2d)
